@@ -2,7 +2,7 @@
 """rustdoc2lean.py -- property C16: compiler-derived Send/Sync and borrow tables.
 
   python3 /verif/translate/rustdoc2lean.py --repo /repo --out /verif/lean/Hb/Gen/Markers.lean
-                                            [--json-cache DIR] [--no-cargo]
+                                            [--json-cache DIR] [--json FILE] [--dump FILE]
 
 Runs `cargo +nightly rustdoc ... --output-format json --document-private-items` on the working
 tree under --repo (never writes into the repo: --target-dir is a cache dir under
